@@ -37,7 +37,9 @@ def seeded():
         else:
             outcome = '; '.join('%s: %s' % (p, ('VIOLATION with failing input' if c['with_failing_input'] else 'VIOLATION no-failing-input-found') if c['detected'] else 'MISSED')
                                 for p, c in r['checks'].items())
-        rows.append('| %s | %s | %s | %s |' % (sid, m['property'], notes, outcome))
+        prop = m['property'] if isinstance(m['property'], str) else ', '.join(m['property'])
+        outcome = re.sub(r'\s+', ' ', outcome).replace('|', '/')
+        rows.append('| %s | %s | %s | %s |' % (sid, prop, notes, outcome))
     return '\n'.join(rows) + '\n'
 
 def theorems():
